@@ -6,6 +6,7 @@ import (
 	"time"
 
 	"github.com/form3tech-oss/f1/v2/internal/trigger/api"
+	"github.com/form3tech-oss/f1/v2/internal/trigger/file"
 	"github.com/form3tech-oss/f1/v2/verifharness/core"
 )
 
@@ -115,6 +116,34 @@ func c13Run(c *core.Case, o *core.Outcome) {
 		desc := fmt.Sprintf("jitter=%g profile=%s len=%d const=%d", j, pname, length, konst)
 		// the tick times are whatever the caller's clock says: distinct, frozen, repeated or going backwards
 		tsPat := r.IntN(6)
+		// one sequence in eight takes its jitter from a config-file stage instead of calling WithJitter itself: a
+		// ramp (or constant) stage with `jitter: j`; the un-jittered rate is the same stage parsed with jitter 0
+		fileStage := ""
+		if profile != 6 && profile != 7 && r.IntN(8) == 0 {
+			fileStage = pick(r, "ramp", "ramp", "constant")
+			a, bb := 1+r.IntN(400), 1+r.IntN(4000)
+			stage := func(jit float64) api.RateFunction {
+				body := fmt.Sprintf("  mode: ramp\n  start-rate: %d/1s\n  end-rate: %d/1s\n", a, bb)
+				if fileStage == "constant" {
+					body = fmt.Sprintf("  mode: constant\n  rate: %d/1s\n", a)
+				}
+				y := fmt.Sprintf("scenario: s\nlimits:\n  max-duration: 100h\n  concurrency: 1\n  max-iterations: 0\n  ignore-dropped: true\ndefault:\n  distribution: none\n  jitter: 7\nstages:\n- duration: %ds\n%s  jitter: %g\n", length, body, jit)
+				rs, err := file.ParseConfigFile([]byte(y), time.Unix(0, 0))
+				if err != nil || len(rs.Stages) != 1 || rs.Stages[0].Rate == nil {
+					return nil
+				}
+				return rs.Stages[0].Rate
+			}
+			jittered, plain := stage(j), stage(0)
+			if jittered == nil || plain == nil {
+				o.Violate("jitter-file-stage:"+desc, "a %s stage with jitter %g was not accepted (%s)", fileStage, j, desc)
+				return
+			}
+			fn = func(ts time.Time) int { cur = plain(ts); k++; return jittered(ts) }
+			tsPat = 0
+			pname = "file-" + fileStage
+			desc = fmt.Sprintf("jitter=%g profile=%s (%d -> %d per second) len=%d", j, pname, a, bb, length)
+		}
 		tsName := []string{"distinct", "frozen", "pairs", "backwards", "zero", "sparse"}[tsPat]
 		desc += " timestamps=" + tsName
 		tsAt := func(i int) time.Time {
